@@ -38,6 +38,9 @@ pub struct TTable {
     /// epoch of the root waker presented in the most recent poll (for the stale statistics only)
     pub cur_epoch: usize,
     pub wake_panics: Vec<String>,
+    /// C16 under threads, per child: (number of wake() calls announced so far, calls announced and not yet returned).
+    /// A call is announced under this lock BEFORE wake() is invoked and retired after it returned.
+    pub fired: std::collections::BTreeMap<Cid, (u64, u32)>,
 }
 pub struct TShared {
     pub t: std::sync::Mutex<TTable>,
@@ -52,7 +55,7 @@ pub struct TShared {
 impl TShared {
     pub fn new() -> TShared {
         TShared {
-            t: std::sync::Mutex::new(TTable { wakers: vec![], in_flight: 0, woken_epoch: 0, stop: false, fires: 0, fires_stale: 0, root_wakes: 0, root_wakes_stale: 0, cur_epoch: 0, wake_panics: vec![] }),
+            t: std::sync::Mutex::new(TTable { wakers: vec![], in_flight: 0, woken_epoch: 0, stop: false, fires: 0, fires_stale: 0, root_wakes: 0, root_wakes_stale: 0, cur_epoch: 0, wake_panics: vec![], fired: std::collections::BTreeMap::new() }),
             cv_main: std::sync::Condvar::new(),
             cv_workers: std::sync::Condvar::new(),
             rdv: AtomicBool::new(false),
@@ -239,11 +242,36 @@ fn poll_prologue(w: &mut World, id: Cid) -> bool {
             _ => {}
         }
     }
-    // (engine T fires wakers on other threads, which cannot update this thread-local bookkeeping: no I4 there)
-    if w.std_cfg && w.threaded.is_none() && w.ch[id].last == Last::Pending && parent_selective(w, id) {
+    // (in engine T the firing threads leave a mark in the shared table before they invoke a waker of this child)
+    // a re-poll is justified if a call was announced since the previous poll of this child started, or was still
+    // in flight at that moment (it may have set the bit afterwards)
+    let fired_elsewhere = match &w.threaded {
+        Some(sh) => {
+            // The observation point (this prologue) lies a little after the library cleared the child's bit, so a
+            // call that landed in between is only seen as "announced before the previous prologue": two prologues
+            // of history make the rule sound (never an alarm where a wake call could account for the poll).
+            let (count, inflight) = sh.t.lock().unwrap().fired.get(&id).cloned().unwrap_or((0, 0));
+            let c = &mut w.ch[id];
+            let ok = count > c.t_count_before_prev || c.t_inflight_at_poll > 0 || c.t_inflight_before_prev > 0;
+            c.t_count_before_prev = c.t_count_at_poll;
+            c.t_inflight_before_prev = c.t_inflight_at_poll;
+            c.t_count_at_poll = count;
+            c.t_inflight_at_poll = inflight;
+            ok
+        }
+        None => false,
+    };
+    // (inner combinator nodes are not judged in engine T: their wakers are not wrapped there)
+    let judged = w.threaded.is_none() || w.ch[id].kind != Kind::Node;
+    if judged && w.std_cfg && w.ch[id].last == Last::Pending && parent_selective(w, id) {
         w.st.i4_obligations += 1;
-        if !w.ch[id].any_woken {
-            w.violate(&["C16"], format!("child {id} last returned Pending and was polled again although none of its wakers was invoked"));
+        if !w.ch[id].any_woken && !fired_elsewhere {
+            let np = w.ch[id].polls + 1;
+            let dbg = match &w.threaded {
+                Some(_) => format!(" (poll #{np} of this child; wake() calls announced by other threads so far: {}, in flight at its previous poll: {})", w.ch[id].t_count_at_poll, w.ch[id].t_inflight_at_poll),
+                None => format!(" (poll #{np} of this child)"),
+            };
+            w.violate(&["C16"], format!("child {id} last returned Pending and was polled again although none of its wakers was invoked{dbg}"));
         }
     }
     let ch = &mut w.ch[id];
